@@ -114,10 +114,9 @@ theorem tmoc_contains_exactly (w sh cap : Nat) (ts : List Nat) (x : Nat) :
 /-- **T-MOC from microsecond ranges**: contains exactly the depth-`d` cells of the instants of the
     (non-empty, half-open) ranges, for every index width — in particular the instants of the last,
     partially covered, cell of the narrower type. -/
-theorem tmoc_ranges_contains_exactly (w sh cap : Nat) (rs : List Rng) (hr : ∀ r ∈ rs, r.1 < r.2) (x : Nat) :
-    mem x (fromMicrosecRanges w sh cap rs) ↔
+theorem tmoc_ranges_core (w sh cap : Nat) (rs : List Rng) (hr : ∀ r ∈ rs, r.1 < r.2) (x : Nat) :
+    mem x (fromMaxdepthRanges sh cap (rs.map fun r => (narrow (64 - w) r.1, narrowUp (64 - w) r.2))) ↔
       ∃ r ∈ rs, ∃ t, r.1 ≤ t ∧ t < r.2 ∧ x / 2 ^ sh = (narrow (64 - w) t) >>> sh := by
-  unfold fromMicrosecRanges
   have hne : ∀ q ∈ rs.map (fun r => (narrow (64 - w) r.1, narrowUp (64 - w) r.2)), q.1 < q.2 := by
     intro q hq
     obtain ⟨r, hr', rfl⟩ := List.mem_map.1 hq
@@ -134,13 +133,24 @@ theorem tmoc_ranges_contains_exactly (w sh cap : Nat) (rs : List Rng) (hr : ∀ 
     have := (narrow_image (64 - w) r.1 r.2 (narrow (64 - w) t) (hr r hr')).2 ⟨t, ht1, ht2, rfl⟩
     exact ⟨_, List.mem_map.2 ⟨r, hr', rfl⟩, narrow (64 - w) t, this.1, this.2, h3⟩
 
+/-- **Every list of ranges, empty ones included** (`tmin = tmax`: no instant, hence no cell — whatever the
+    alignment of the bound and the index width; /repo "fix: RangeMocBuilder kept empty input ranges"). -/
+theorem tmoc_ranges_contains_exactly (w sh cap : Nat) (rs : List Rng) (x : Nat) :
+    mem x (fromMicrosecRanges w sh cap rs) ↔
+      ∃ r ∈ rs, ∃ t, r.1 ≤ t ∧ t < r.2 ∧ x / 2 ^ sh = (narrow (64 - w) t) >>> sh := by
+  unfold fromMicrosecRanges
+  rw [tmoc_ranges_core w sh cap _ (fun r h => by simpa using (List.mem_filter.1 h).2)]
+  constructor
+  · rintro ⟨r, hr, h⟩; exact ⟨r, (List.mem_filter.1 hr).1, h⟩
+  · rintro ⟨r, hr, t, h1, h2, h3⟩
+    exact ⟨r, List.mem_filter.2 ⟨hr, by simp; omega⟩, t, h1, h2, h3⟩
+
 /-- **F-MOC from hertz ranges**: for accepted bounds `f1 < f2` (bit patterns `r.1 < r.2`) the MOC contains
     exactly the depth-`d` cells containing a value of `[f1, f2)`, for every index width. -/
-theorem fmoc_ranges_contains_exactly (w sh cap : Nat) (rs : List Rng)
+theorem fmoc_ranges_core (w sh cap : Nat) (rs : List Rng)
     (hr : ∀ r ∈ rs, r.1 < r.2 ∧ freqValid r.1 = true ∧ freqValid r.2 = true) (x : Nat) :
-    mem x (fromFreqRangeBits w sh cap rs) ↔
+    mem x (fromMaxdepthRanges sh cap (rs.filterMap (freqRangeIdx w))) ↔
       ∃ r ∈ rs, ∃ b, r.1 ≤ b ∧ b < r.2 ∧ ∃ h, freq2hash w b = some h ∧ x / 2 ^ sh = h >>> sh := by
-  unfold fromFreqRangeBits
   have hfm : rs.filterMap (freqRangeIdx w) =
       rs.map fun r => (narrow (64 - w) (freqHash64 r.1), narrowUp (64 - w) (freqHash64 r.2)) := by
     clear x
@@ -195,6 +205,19 @@ theorem fmoc_ranges_contains_exactly (w sh cap : Nat) (rs : List Rng)
     have e3 := freqHash64_eq b hv
     have := (narrow_image (64 - w) _ _ (narrow (64 - w) (freqHash64 b)) hlt).2 ⟨freqHash64 b, by omega, by omega, rfl⟩
     exact ⟨_, List.mem_map.2 ⟨r, hr', rfl⟩, _, this.1, this.2, h3⟩
+
+/-- **Every list of accepted hertz ranges, empty ones included** (`f1 = f2`, or reversed bounds: no value, no
+    cell). -/
+theorem fmoc_ranges_contains_exactly (w sh cap : Nat) (rs : List Rng)
+    (hr : ∀ r ∈ rs, freqValid r.1 = true ∧ freqValid r.2 = true) (x : Nat) :
+    mem x (fromFreqRangeBits w sh cap rs) ↔
+      ∃ r ∈ rs, ∃ b, r.1 ≤ b ∧ b < r.2 ∧ ∃ h, freq2hash w b = some h ∧ x / 2 ^ sh = h >>> sh := by
+  unfold fromFreqRangeBits
+  rw [fmoc_ranges_core w sh cap _ (fun r h => ⟨by simpa using (List.mem_filter.1 h).2, hr r (List.mem_filter.1 h).1⟩)]
+  constructor
+  · rintro ⟨r, hr', h⟩; exact ⟨r, (List.mem_filter.1 hr').1, h⟩
+  · rintro ⟨r, hr', b, h1, h2, h3⟩
+    exact ⟨r, List.mem_filter.2 ⟨hr', by simp; omega⟩, b, h1, h2, h3⟩
 
 /-- A wider index type covers the same physical interval: widening an index and dropping the added
     bits gives the index back (hence the same microsecond / hash values are covered). -/
